@@ -302,7 +302,11 @@ def r08_5(ck, F):
 
 
 def run(ck, F):
+    import c02
     for r in (r08_1, r08_1b, r08_2, r08_3, r08_4, r08_5):
+        ck.run_rule(r)
+    # shared clauses: the buffering bound rests on the receive-side accounting and on the right limit being wired
+    for r in (c02.r02_5, c02.r02_6, c02.r02_7):
         ck.run_rule(r)
 
 
